@@ -61,6 +61,10 @@ def wild_spec(draw):
                     it['attrs'].append(['slat_add', draw(st.sampled_from([0, 20, 21, 3, 4])), ['lit', draw(st.integers(-500, 500))]])
                 elif w == 6:
                     it['attrs'].append(['advx', 0, ['lit', draw(st.sampled_from([0, 1, 5000, -300, 32767]))]])
+                elif w == 7 and it.get('op') == 'keep' and not positioning:
+                    # substitution through arbitrary classes: the slot's glyph need not be a member of the input class
+                    it['op'] = 'subs'; it['ref'] = draw(st.integers(-pre, blen - 1))
+                    it['in'] = draw(st.integers(0, len(classes) - 1)); it['out'] = draw(st.integers(0, len(classes) - 1))
             if not positioning and draw(st.integers(0, 4)) == 0:
                 # insert-heavy: up to 5 inserts at random places
                 acts = r['actions']
